@@ -31,8 +31,8 @@ RULE = ('one run = one seeded source history (undo records, deletions, '
         'damage is an unchanged input transaction, ids increase; one '
         'evaluation = one copy or one recovery; non-trivial = >= 2 source '
         'transactions; distinct = (arm, source hash, variant)')
-BUDGET = {'quick': {'runs': 1000, 'wall': 300, 'chunk': 10},
-          'thorough': {'runs': 30000, 'wall': 3000, 'chunk': 20}}
+BUDGET = {'quick': {'runs': 4000, 'wall': 300, 'chunk': 10},
+          'thorough': {'runs': 300000, 'wall': 1800, 'chunk': 50}}
 ASSUMPTIONS = [
     'a copy is query-identical, not byte-identical (back pointers are '
     're-derived from hints)',
